@@ -40,6 +40,7 @@ type bareEnv struct {
 	last   *tmeil.StateMachineRoundView // last view sent
 	lastOf map[uint64][2]uint64         // per height: the last round answered
 	shown  map[[2]uint64]uint32         // per round: the highest version handed to the state machine
+	catchUp bool                        // the last entrance was answered with a committed header: no round views until the next entrance
 	sent   int
 
 	// Controlled main select of the state machine (harness/tools/selxform): the kernel is held at the entry of its
@@ -295,6 +296,10 @@ func (b *bareEnv) delivered(s *sys, rv tmeil.StateMachineRoundView) {
 // mirror kernel's select is); a newer view replaces an offered one that was not taken.
 func (b *bareEnv) offer(s *sys) {
 	var rv tmeil.StateMachineRoundView
+	if b.catchUp {
+		b.explicit, b.dirty = nil, false
+		return
+	}
 	switch {
 	case b.explicit != nil:
 		rv = *b.explicit
@@ -361,7 +366,9 @@ func (b *bareEnv) pump(s *sys) {
 
 // curView builds the message a mirror would send for the state machine's current round now.
 func (b *bareEnv) curView(s *sys) (tmeil.StateMachineRoundView, bool) {
-	if b.cur == nil {
+	if b.cur == nil || b.catchUp {
+		// A state machine that was handed the committed header of its height replays it; the mirror has no round
+		// view for it until it enters the next height.
 		return tmeil.StateMachineRoundView{}, false
 	}
 	w := s.w
@@ -438,6 +445,7 @@ func (b *bareEnv) apply(s *sys, ev string) (string, bool) {
 		}
 		b.ent = nil
 		b.cur = e
+		b.catchUp = desc == "ch"
 		b.lastOf[e.H] = [2]uint64{e.H, uint64(e.R)}
 		select {
 		case e.Response <- resp:
